@@ -254,3 +254,126 @@ Print Assumptions C07_small_atof.
 Print Assumptions C07_tables_small.
 Print Assumptions C07_tables_large.
 Print Assumptions C07_tables_limbs.
+
+(* ---- math.rs at LIMB level (Model/LexBig.v: Vec<u64> limbs, carries and wrapping arithmetic written out, every index / underflow panic an explicit None):
+        each operation refines the Z operation Model/Lex.v uses, bhcomp at limb level = the Z-level bhcomp proved correct above, and the operand ranges the
+        parser can reach stay inside the domain where nothing panics (Proofs/LexBig*.v) ---- *)
+From Coq Require Import NArith ZArith List Bool Arith Lia ZifyBool ZifyNat ZifyN.
+From SJ Require Import Gen.LexTables Model.Lex Model.LexBig.
+From SJ Require Import Proofs.LexBigBase.
+Theorem C07_big_compare : forall (x y : list N), limbs_ok x -> limbs_ok y -> normalized x -> normalized y ->
+  big_compare x y = (val x ?= val y).
+Proof. exact LexBigBase.compare_refines. Qed.
+Print Assumptions C07_big_compare.
+
+Theorem C07_big_hi64 : forall (x : list N), limbs_ok x -> normalized x -> hi64 x = Some (big_hi64 (val x)).
+Proof. exact LexBigBase.hi64_refines. Qed.
+Print Assumptions C07_big_hi64.
+
+Theorem C07_big_bit_length : forall (x : list N), limbs_ok x -> normalized x -> (64 * N.of_nat (length x) < LB)%N ->
+  Z.of_N (bit_length x) = big_bit_length (val x).
+Proof. exact LexBigBase.bit_length_refines. Qed.
+Print Assumptions C07_big_bit_length.
+
+From Coq Require Import NArith ZArith List Bool Arith Lia ZifyBool ZifyNat ZifyN.
+From SJ Require Import Gen.LexTables Model.Lex Model.LexBig Proofs.LexBigBase.
+From SJ Require Import Proofs.LexBigMul.
+Theorem C07_big_long_mul : forall (x y : list N), limbs_ok x -> limbs_ok y -> y <> [] ->
+  exists z, long_mul x y = Some z /\ val z = val x * val y /\ limbs_ok z /\ normalized z /\ (length z <= length x + length y)%nat.
+Proof. exact LexBigMul.long_mul_refines. Qed.
+Print Assumptions C07_big_long_mul.
+
+Theorem C07_big_karatsuba_partial : forall fuel : nat, mul_ok (karatsuba_mul fuel).
+Proof. exact LexBigMul.karatsuba_mul_partial. Qed.
+Print Assumptions C07_big_karatsuba_partial.
+
+From Coq Require Import NArith ZArith List Bool Arith Lia ZifyBool ZifyNat ZifyN.
+From SJ Require Import Gen.LexTables Model.Lex Model.LexBig Proofs.LexBigBase Proofs.LexBigMul Proofs.LexTables.
+From SJ Require Import Proofs.LexBigPow.
+Theorem C07_big_imul_small : forall (x : list N) (y : N), limbs_ok x -> (y < LB)%N ->
+  val (imul_small x y) = val x * Z.of_N y /\ limbs_ok (imul_small x y)
+  /\ (normalized x -> y <> 0%N -> normalized (imul_small x y))
+  /\ (length x <= length (imul_small x y) <= length x + 1)%nat.
+Proof. exact LexBigPow.imul_small_refines. Qed.
+Print Assumptions C07_big_imul_small.
+
+Theorem C07_big_iadd_small : forall (x : list N) (y : N), limbs_ok x -> (y < LB)%N ->
+  exists z, iadd_small x y = Some z /\ val z = val x + Z.of_N y /\ limbs_ok z
+    /\ (normalized x -> x <> [] \/ y <> 0%N -> normalized z)
+    /\ (length x <= length z <= length x + 1)%nat.
+Proof. exact LexBigPow.iadd_small_refines. Qed.
+Print Assumptions C07_big_iadd_small.
+
+Theorem C07_big_imul_pow2 : forall (x : list N) (n : N), limbs_ok x ->
+  exists z, imul_pow2 x n = Some z /\ val z = val x * 2 ^ Z.of_N n /\ limbs_ok z /\ (normalized x -> normalized z).
+Proof. exact LexBigPow.imul_pow2_refines. Qed.
+Print Assumptions C07_big_imul_pow2.
+
+Theorem C07_big_imul_pow5_partial : forall (x : list N) (n : N) (z : list N), limbs_ok x -> normalized x -> (n < 2 ^ 32)%N ->
+  imul_pow5 x n = Some z -> val z = val x * 5 ^ Z.of_N n /\ limbs_ok z /\ normalized z.
+Proof. exact LexBigPow.imul_pow5_partial. Qed.
+Print Assumptions C07_big_imul_pow5_partial.
+
+Theorem C07_big_imul_pow5_1024 : forall (x : list N) (n : N), limbs_ok x -> (n < 1024)%N -> (length x <= 44)%nat ->
+  exists z, imul_pow5 x n = Some z /\ val z = val x * 5 ^ Z.of_N n /\ limbs_ok z /\ (normalized x -> normalized z).
+Proof. exact LexBigPow.imul_pow5_refines_1024. Qed.
+Print Assumptions C07_big_imul_pow5_1024.
+
+Theorem C07_big_imul_pow10_1024 : forall (x : list N) (n : N), limbs_ok x -> (n < 1024)%N -> (length x <= 44)%nat ->
+  exists z, imul_pow10 x n = Some z /\ val z = val x * 10 ^ Z.of_N n /\ limbs_ok z /\ (normalized x -> normalized z).
+Proof. exact LexBigPow.imul_pow10_refines_1024. Qed.
+Print Assumptions C07_big_imul_pow10_1024.
+
+From Coq Require Import NArith ZArith List Bool Arith Lia ZifyBool ZifyNat ZifyN.
+From SJ Require Import Base.Bytes Gen.LexTables Model.Num Model.Lex Model.LexBig.
+From SJ Require Import Proofs.LexBigBase Proofs.LexBigMul Proofs.LexBigPow.
+From SJ Require Import Proofs.LexBigRefine.
+Theorem C07_big_parse_mantissa : forall (k : fkind) (integer fraction : list N),  forallb is_digit integer = true -> forallb is_digit fraction = true ->
+  exists m, parse_mantissa_l k integer fraction = Some m
+    /\ val m = parse_mantissa k integer fraction /\ limbs_ok m
+    /\ (0 < parse_mantissa k integer fraction -> normalized m)
+    /\ 0 <= parse_mantissa k integer fraction < 10 ^ 769.
+Proof. exact LexBigRefine.parse_mantissa_refines. Qed.
+Print Assumptions C07_big_parse_mantissa.
+
+Theorem C07_big_bhcomp : forall (k : fkind) (b : N) (integer fraction : list N) (exponent : Z),  forallb is_digit integer = true -> forallb is_digit fraction = true ->
+  0 < bh_mantissa k integer fraction ->
+  -2048 < bh_scaled_exponent k integer fraction exponent < 1024 ->
+  bhcomp_l k b integer fraction exponent = Some (bhcomp k b integer fraction exponent).
+Proof. exact LexBigRefine.bhcomp_refines. Qed.
+Print Assumptions C07_big_bhcomp.
+
+Theorem C07_big_bhcomp_sound : forall (k : fkind) (b : N) (integer fraction : list N) (exponent : Z) (r : N),  forallb is_digit integer = true -> forallb is_digit fraction = true ->
+  0 < bh_mantissa k integer fraction ->
+  - 2 ^ 31 <= bh_scaled_exponent k integer fraction exponent < 2 ^ 31 ->
+  bhcomp_l k b integer fraction exponent = Some r -> r = bhcomp k b integer fraction exponent.
+Proof. exact LexBigRefine.bhcomp_sound. Qed.
+Print Assumptions C07_big_bhcomp_sound.
+
+From Coq Require Import ZArith NArith Lia List Bool.
+From SJ Require Import Base.Bytes Gen.LexTables Model.Num Model.Lex Model.LexBig.
+From SJ Require Import Proofs.LexBh Proofs.LexFull Proofs.LexBigBase Proofs.LexBigRefine.
+From SJ Require Import Proofs.LexBigReach.
+Theorem C07_big_reach : forall (k : fkind) (b : N) (integer fraction : bytes) (exponent : Z) (w : N) (t : nat) (rest mexp : Z),  alldig integer -> alldig fraction -> (integer = [] \/ hd 0%N integer <> 48%N) ->
+  -1000000000 <= exponent <= 1000000000 -> len integer + len fraction <= 1000000000 ->
+  dv (integer ++ fraction) = Z.of_N w * 10 ^ Z.of_nat t + rest -> 0 <= rest < 10 ^ Z.of_nat t ->
+  (0 < w)%N -> (w < two64N)%N ->
+  mexp = exponent - len fraction + Z.of_nat t -> -350 <= mexp < 310 ->
+  -1119 < bh_scaled_exponent k integer fraction exponent < 331
+  /\ bhcomp_l k b integer fraction exponent = Some (bhcomp k b integer fraction exponent).
+Proof. exact LexBigReach.bh_reach. Qed.
+Print Assumptions C07_big_reach.
+
+Theorem C07_big_concise_refined : forall (k : fkind) (mantissa : N) (mant_exp : Z) (fp : efloat) (b bits : N),  (mantissa < two64N)%N -> concise_trace k mantissa mant_exp = TBh fp b bits ->
+  bhcomp_l k b (itoa mantissa) [] mant_exp = Some bits.
+Proof. exact LexBigReach.concise_bh_refined. Qed.
+Print Assumptions C07_big_concise_refined.
+
+Theorem C07_big_truncated_refined : forall (k : fkind) (integer fraction : bytes) (exponent : Z) (fp : efloat) (b bits : N),  alldig integer -> alldig fraction -> (integer = [] \/ hd 0%N integer <> 48%N) ->
+  -1000000000 <= exponent <= 1000000000 -> len integer + len fraction <= 1000000000 ->
+  0 < dv (integer ++ strip_trailing_zeros fraction) ->
+  snd (truncated_trace k integer fraction exponent) = TBh fp b bits ->
+  bhcomp_l k b integer (strip_trailing_zeros fraction) exponent = Some bits.
+Proof. exact LexBigReach.truncated_bh_refined. Qed.
+Print Assumptions C07_big_truncated_refined.
+
